@@ -9,4 +9,5 @@ VIEW View
 INVARIANT P_C19
 INVARIANT P_C04
 INVARIANT P_C15
+INVARIANT P_C15_Sort
 CHECK_DEADLOCK FALSE
